@@ -85,3 +85,16 @@ func (sm *SyncMap[K, V]) Set(key K, value V) {
 
 	sm.ma[key] = value
 }
+
+// Replaces the value of a key that is present and reports whether it was: a key deleted in the
+// meantime stays deleted.
+func (sm *SyncMap[K, V]) SetIfPresent(key K, value V) bool {
+	sm.mu.Lock()
+	defer sm.mu.Unlock()
+
+	if _, ok := sm.ma[key]; !ok {
+		return false
+	}
+	sm.ma[key] = value
+	return true
+}
